@@ -35,6 +35,7 @@ func c17(c *Ctx) {
 	c17Trie(c, cdb)
 	c17Store(c)
 	c17TrieOracle(c, cdb)
+	c17Storage(c, cdb)
 }
 
 // ---------------------------------------------------------------- Merkle
